@@ -289,6 +289,8 @@ class C20(Prop):
             self._rc[pstr] = fc.RefCodec(pstr)
         return self._rc[pstr]
 
+    _parsers = {}
+
     def rec(self, pstr):
         if pstr not in self._rec:
             self._rec[pstr] = Recorder(fc.frame_cls(pstr))
@@ -306,6 +308,12 @@ class C20(Prop):
             for fid in [0, 1, 2, 5, 8, 9, 255, 256]:
                 yield pre + f"create {fid} {hexs(g.rbytes(rng, rng.randrange(0, 6)))}", "create"
             yield pre + "create 2 none", "create"
+            # the library's own builders with this codec, in one process with all the other codecs (shared state!)
+            for r in (0, 0, -22, 1):
+                yield pre + f"ackenc {r}", "builder-ack"
+            yield pre + f"cmnenc {rng.randrange(256)} {rng.randrange(4)} {rng.choice([0, 16])}", "builder-cmninfo"
+            yield pre + f"reqstart {rng.randrange(2)}", "builder-start"
+            yield pre + f"reqchinfo {rng.randrange(255)}", "builder-chinfo"
             lim = 256 ** rc.len_n - rc.hdr_len - rc.foot_len      # first payload length that does not fit
             if rc.len_n == 1 or ci % 8 == 0:
                 for n in (lim - 1, lim):
@@ -396,6 +404,25 @@ class C20(Prop):
                 return "spin " + str(e)
         if op == "recv":
             return self.rec(P).handle(unhex(t[4]))
+        if op in ("ackenc", "cmnenc", "reqstart", "reqchinfo"):
+            try:
+                if op == "ackenc":
+                    return "ok " + hexs(self.rec(P).p.frame_ack_encode(int(t[3])))
+                if op == "cmnenc":
+                    class D:
+                        pass
+                    d = D()
+                    d.data = D()
+                    d.data.chmax, d.data.flags, d.data.rxpadding = int(t[3]), int(t[4]), int(t[5])
+                    return "ok " + hexs(self.rec(P).p.frame_cmninfo_encode(d))
+                from nxslib.proto.parse import Parser
+                if P not in self._parsers:
+                    self._parsers[P] = Parser(frame=cls)
+                if op == "reqstart":
+                    return "ok " + hexs(self._parsers[P].frame_start(bool(int(t[3]))))
+                return "ok " + hexs(self._parsers[P].frame_chinfo(int(t[3])))
+            except Exception as e:
+                return "err " + exc_name(e)
         fr = cls()
         if op == "info":
             return f"ok {fr.hdr_len} {fr.foot_len}"
@@ -471,6 +498,24 @@ class C20(Prop):
                                 "acceptance predicate (start byte, known id, hdr+foot <= declared length <= len, footer over "
                                 "exactly the declared length, payload between header and footer)",
                         "codec": P, "hdr_len": rc.hdr_len, "foot_len": rc.foot_len, "expected": want, "observed": out}
+            return None
+        if op in ("ackenc", "cmnenc", "reqstart", "reqchinfo"):
+            # the library's builders with this codec must emit this codec's framing of the NxScope payload,
+            # whatever other codecs were used in the same process before
+            import struct as _st
+            if op == "ackenc":
+                fid, pl = 4, _st.pack("<i", int(t[3]))
+            elif op == "cmnenc":
+                fid, pl = 2, bytes([int(t[3]), int(t[4]), int(t[5])])
+            elif op == "reqstart":
+                fid, pl = 5, bytes([int(t[3])])
+            else:
+                fid, pl = 3, bytes([int(t[3])])
+            want = "ok " + hexs(rc.create(fid, pl))
+            got = self.impl(line)
+            if got != want:
+                return {"key": "builder-custom-codec", "what": f"{op} with Parser/ParseRecv(frame=<custom codec>) does not emit that codec's framing "
+                        "(after other codecs were used in the same process)", "codec": P, "expected": want, "observed": got}
             return None
         return None      # (a) lines exercise the harness' own ICommFrame subclass, not nxslib
 
